@@ -50,7 +50,11 @@ template <class PT> void run_set(vf::Ctx& c, const char* tname, const regref::Se
       regref::Rigid ref = regref::horn(rs, rt, DIM);
       LD Ms = 0, Mt = 0; for (auto& p : rs) Ms = std::max(Ms, p.norm()); for (auto& p : rt) Mt = std::max(Mt, p.norm());
       // collinear / numerically degenerate in this precision => outside the quantifier
-      LD boundR = 16 * eps * rs.size() * Ms * Mt / std::max<LD>(ref.s_dm1_plus_d, 1e-300L);
+      // rounding of the centred cross-covariance: n eps (Ms Et + Es Mt + Es Et) with E the extents about the means (two-pass
+      // algorithm); for sets centred near the origin the cruder n eps Ms Mt is smaller and is kept (tolerances unchanged there)
+      V3 cs = V3::Zero(), ct = V3::Zero(); for (auto& p : rs) cs += p; for (auto& p : rt) ct += p; cs /= (LD)rs.size(); ct /= (LD)rt.size();
+      LD Es = 0, Et = 0; for (auto& p : rs) Es = std::max(Es, (p - cs).norm()); for (auto& p : rt) Et = std::max(Et, (p - ct).norm());
+      LD boundR = 16 * eps * rs.size() * std::min<LD>(Ms * Mt, Ms * Et + Es * Mt + Es * Et) / std::max<LD>(ref.s_dm1_plus_d, 1e-300L);
       std::string params = vf::JO().str("type", tname).str("set", set.name).u("points", n).u("rotation", ir).u("translation", it).num("sigma", sigma).i("correspondence_mode", cm).done();
       if (sig == 0) {   // reference self-check on exact data (double data only: the stored points carry rounding of S)
         LD e = (ref.R - rots[ir]).norm();
@@ -83,7 +87,7 @@ template <class PT> void run_set(vf::Ctx& c, const char* tname, const regref::Se
         if (!(eR <= tolR) || !(eT <= tolT)) { c.violation("FindRigidTransformationBySVD.find.notOptimalRigidMotion", p2, vf::JO().num("R_err", eR).num("R_tol", tolR).num("t_err", eT).num("t_tol", tolT).num("det", det).done()); continue; }
         if (sig == 0) {   // exact data: every source lands on its target, motion recovered to 1e-9 (1e-4 float) relative
           LD worst = 0; for (size_t i = 0; i < rs.size(); ++i) { Eigen::Matrix<LD, DIM, 1> m = R * rs[i].template head<DIM>() + t; worst = std::max(worst, (m - rt[i].template head<DIM>()).norm()); }
-          LD hn = 1 + tref.norm();
+          LD hn = 1 + tref.norm() + Ms;   // t = mean_t - R mean_s: relative to the magnitude of the data as well
           if (worst > (limit + sclErr) * (Ms + Mt + 1) || eR > limit || eT > (limit + sclErr) * hn * 4) c.violation("FindRigidTransformationBySVD.find.exactDataNotRecovered", p2, vf::JO().num("worst_residual", worst).num("R_err", eR).num("t_err", eT).done());
         }
       }
@@ -118,7 +122,7 @@ std::string vf_describe(const std::string& tier) {
   o.str("correspondences", "identity, reversed, shuffled order, every other (subset), target stored permuted, subset of a permuted target in reversed order");
   o.str("overloads", "index-based and aligned, plain and preconditioned with scale {1e-3, 1/largest side, 1, 1e3}");
   o.str("perturbation", "deterministic Halton pattern, sigma {0, 1e-3, 0.1}");
-  o.str("oracle", "proper rotation (64 eps); agreement with Horn's quaternion (3D) / closed-form (2D) solution in long double within max(64 eps n Ms Mt/(s_{d-1}+s_d), 64 eps); exact data: residuals and motion within 1e-9 (float 1e-4) relative; cases whose conditioning bound exceeds that are outside the quantifier (collinear / unresolvable in the scalar type) and counted trivial");
+  o.str("oracle", "proper rotation (64 eps); agreement with Horn's quaternion (3D) / closed-form (2D) solution in long double within max(64 eps n min(Ms Mt, Ms Et + Es Mt + Es Et)/(s_{d-1}+s_d), 64 eps) (M largest norms, E largest distances from the means); exact data: residuals and motion within 1e-9 (float 1e-4) relative; cases whose conditioning bound exceeds that are outside the quantifier (collinear / unresolvable in the scalar type) and counted trivial");
   return o.done();
 }
 
